@@ -101,7 +101,12 @@ pub fn replay(case: &Value) -> Vec<Violation> {
     let Some(site) = case["site"].as_str().and_then(Site::from_name) else { return vec![] };
     let zod = case["zod"].as_bool().unwrap_or(false);
     let Ok(ty) = serde_json::from_value::<RTy>(case["ty"].clone()) else { return vec![] };
-    let (ex, _) = typesite::run_solo(site, &Cfg::mode(zod), &ty, &gen::leaf_defs());
+    let cfg = if case["lookalike_mappings"].as_bool().unwrap_or(false) {
+        Cfg { type_mappings: [("Ite", "string"), ("It", "number"), ("Kin", "boolean"), ("Itemx", "string"), ("KindOf", "number"), ("Str", "number"), ("Vec", "string"), ("Opt", "number"), ("Hash", "boolean"), ("i3", "string")].iter().map(|(a, b)| (a.to_string(), b.to_string())).collect(), ..Cfg::mode(zod) }
+    } else {
+        Cfg::mode(zod)
+    };
+    let (ex, _) = typesite::run_solo(site, &cfg, &ty, &gen::leaf_defs());
     match judge(&ty, &ex) {
         Verdict::Mismatch { got, want, .. } => vec![mk_violation(site, zod, &ty, &got, &want)],
         _ => vec![],
@@ -201,6 +206,42 @@ pub fn run(tier: Tier) -> CheckResult {
             _ => {}
         }
     }
+    // second pass under a non-empty type_mappings table whose keys merely LOOK like the names in
+    // use (prefixes / extensions of Item, Kind and of the containers): nothing may change
+    let lookalike: Vec<(String, String)> = [("Ite", "string"), ("It", "number"), ("Kin", "boolean"), ("Itemx", "string"), ("KindOf", "number"), ("Str", "number"), ("Vec", "string"), ("Opt", "number"), ("Hash", "boolean"), ("i3", "string")].iter().map(|(a, b)| (a.to_string(), b.to_string())).collect();
+    let small: Vec<RTy> = types.iter().filter(|t| t.depth() <= 1).cloned().collect();
+    let mut mwork: Vec<(Site, bool, Vec<RTy>)> = vec![];
+    for (s, z) in &site_modes {
+        for chunk in small.chunks(s.batch_size()) {
+            mwork.push((*s, *z, chunk.to_vec()));
+        }
+    }
+    let mres: Vec<Vec<Violation>> = mwork
+        .par_iter()
+        .map(|(s, z, chunk)| {
+            if deadline.passed() {
+                return vec![];
+            }
+            let cfg = Cfg { type_mappings: lookalike.clone(), ..Cfg::mode(*z) };
+            let mut evals = 0u64;
+            let ex = typesite::run_batch(*s, &cfg, chunk, &defs, &mut evals);
+            chunk
+                .iter()
+                .zip(ex.iter())
+                .filter_map(|(t, e)| match judge(t, e) {
+                    Verdict::Mismatch { got, want, .. } => Some(mk_violation(*s, *z, t, &got, &want).field("mappings", "look-alike keys only").with_replay_field("lookalike_mappings", json!(true))),
+                    _ => None,
+                })
+                .collect()
+        })
+        .collect();
+    evaluations += mwork.len() as u64;
+    for v in mres.into_iter().flatten() {
+        // (types under the open finding fail with or without the table: they are reported once, above)
+        if !res.violations.iter().any(|x| x.ty == v.ty && x.fields.get("site") == v.fields.get("site") && x.fields.get("mode") == v.fields.get("mode")) {
+            res.violations.push(v);
+        }
+    }
     res.coverage.set("evaluations", evaluations);
     res.coverage.set("translations_judged", translations);
     res.coverage.set("translations_ok", ok);
@@ -212,7 +253,7 @@ pub fn run(tier: Tier) -> CheckResult {
     res.coverage.set("max_depth", types.iter().map(|t| t.depth()).max().unwrap_or(0) as u64);
     res.coverage.set("exhaustive", exhaustive);
     res.coverage.set("samples", json!(types.iter().step_by((types.len() / 8).max(1)).take(8).map(|t| t.to_rust()).collect::<Vec<_>>()));
-    res.coverage.set("rule", "type expressions: every primitive name at depth <= 1; the full product of all constructors at depth <= 2 over a leaf alphabet; constructor-position spines to depth 3 (quick) / 4 (thorough); each placed at every site/mode that carries TypeScript type text (batched into generated projects, carrier-file parse failures re-run solo); evaluation = one in-process run of the real pipeline; oracle = parsed emitted type, normalised to a Shape, must equal the reference denotation of the Rust type; distinct_nontrivial counts distinct (site, mode, composite type) cases whose emitted type was parsed and agreed; cases whose carrier file does not parse are C01's and counted as not evaluable here");
+    res.coverage.set("rule", "type expressions: every primitive name at depth <= 1; the full product of all constructors at depth <= 2 over a leaf alphabet; constructor-position spines to depth 3 (quick) / 4 (thorough); each placed at every site/mode that carries TypeScript type text (batched into generated projects, carrier-file parse failures re-run solo); evaluation = one in-process run of the real pipeline; oracle = parsed emitted type, normalised to a Shape, must equal the reference denotation of the Rust type; distinct_nontrivial counts distinct (site, mode, composite type) cases whose emitted type was parsed and agreed; cases whose carrier file does not parse are C01's and counted as not evaluable here; the depth <= 1 expressions are translated a second time under a type_mappings table whose ten keys only look like the names in use (prefixes and extensions): the result must not change");
     res.assumptions = vec![
         "reference denotation = README table applied compositionally (bound to real serde by selftest)".into(),
         "a violating case whose direct argument type already fails at the same site is derived and not reported".into(),
